@@ -392,3 +392,185 @@ Theorem C06_fbig_to_rbig : forall B s e, 2 <= B ->
               n * snd (repr_frac B s e) = fst (repr_frac B s e) * d.
 Proof. exact fbig_try_to_rbig_correct. Qed.
 Print Assumptions C06_fbig_to_rbig.
+
+(** ------------------------------------------------------------------------------------------
+    third round *)
+From Dashu Require Import Float.RoundOpsModel Conv.ConvModel2 Conv.ConvRatToFbig Conv.ConvTry2Proofs Conv.ConvFloat2Proofs
+  Conv.ConvToInt Conv.ConvParams2Proof.
+From DashuGen Require Import ConvParams2.
+
+(** RBig / Relaxed ::to_float, the whole function (digit counts, shift, quotient cut to exactly p
+    digits, ONE rounding by round_ratio, convert_int, exponent fix-up): for every base, precision,
+    mode, numerator and positive denominator the result is the correctly rounded p-digit float of
+    N/D in normal form with the truthful flag *)
+Theorem C06_rat_to_fbig : forall B, 2 <= B -> forall p m N D, 1 <= p -> 0 < D ->
+  let '(M, u, c) := rat_to_fbig_spec B p m N D in
+  rat_to_fbig B p m N D = approx_of (normalize B M u) (flag_of_error (Z.sgn N) c).
+Proof. exact rat_to_fbig_correct. Qed.
+Print Assumptions C06_rat_to_fbig.
+
+Theorem C06_rat_to_fbig_rounds_once : forall B, 2 <= B -> forall p m N D, 1 <= p -> 0 < D ->
+  rat_to_fbig_twice B p m N D = false.
+Proof. exact rat_to_fbig_never_twice. Qed.
+Print Assumptions C06_rat_to_fbig_rounds_once.
+
+(** TryFrom<RBig/Relaxed> for f32 / f64 (power-of-two test, top-bit window, trailing zeros stripped,
+    MANTISSA_DIGITS test, encode): Ok(pattern) exactly when the reduced fraction is a value of the
+    format, refused otherwise *)
+Theorem C06_rat_try_to_f32 : forall N D, 0 < D -> Z.gcd N D = 1 ->
+  conv_ok (rat_try_to_float P32 N D) = exact_to_float F32 N D.
+Proof. exact rat_try_to_f32_correct. Qed.
+Print Assumptions C06_rat_try_to_f32.
+
+Theorem C06_rat_try_to_f64 : forall N D, 0 < D -> Z.gcd N D = 1 ->
+  conv_ok (rat_try_to_float P64 N D) = exact_to_float F64 N D.
+Proof. exact rat_try_to_f64_correct. Qed.
+Print Assumptions C06_rat_try_to_f64.
+
+(** TryFrom<FBig<R,2>> / TryFrom<Repr<2>> for f32 / f64, every mode, WHOLE exponent range *)
+Theorem C06_fbig2_try_to_f32 : forall m s e, s <> 0 ->
+  conv_ok (fbig2_try_to_float P32 m s e) = exact_to_float F32 (fst (frac_of s e)) (snd (frac_of s e)).
+Proof. exact fbig2_try_to_f32_correct. Qed.
+Print Assumptions C06_fbig2_try_to_f32.
+
+Theorem C06_fbig2_try_to_f64 : forall m s e, s <> 0 ->
+  conv_ok (fbig2_try_to_float P64 m s e) = exact_to_float F64 (fst (frac_of s e)) (snd (frac_of s e)).
+Proof. exact fbig2_try_to_f64_correct. Qed.
+Print Assumptions C06_fbig2_try_to_f64.
+
+(** TryFrom<f32/f64> for RBig / Relaxed (decode, reduce2) and for Repr<2> / FBig<R,2> *)
+Theorem C06_float_try_to_rat_f32 : forall bits, 0 <= bits ->
+  match decode_spec F32 bits with
+  | DFin man exp =>
+      exists n d, float_try_to_rat P32 bits = COk (n, d) /\ 0 < d /\ Z.gcd n d = 1 /\
+                  n * snd (frac_of man exp) = fst (frac_of man exp) * d
+  | _ => float_try_to_rat P32 bits = COutOfBounds
+  end.
+Proof. exact float_try_to_rat_f32. Qed.
+Print Assumptions C06_float_try_to_rat_f32.
+
+Theorem C06_float_try_to_rat_f64 : forall bits, 0 <= bits ->
+  match decode_spec F64 bits with
+  | DFin man exp =>
+      exists n d, float_try_to_rat P64 bits = COk (n, d) /\ 0 < d /\ Z.gcd n d = 1 /\
+                  n * snd (frac_of man exp) = fst (frac_of man exp) * d
+  | _ => float_try_to_rat P64 bits = COutOfBounds
+  end.
+Proof. exact float_try_to_rat_f64. Qed.
+Print Assumptions C06_float_try_to_rat_f64.
+
+Theorem C06_float_try_to_fbig_f32 : forall bits, 0 <= bits ->
+  match decode_spec F32 bits with
+  | DFin man exp => float_try_to_fbig P32 bits = COk (fst (normalize 2 man exp), snd (normalize 2 man exp), blen (Z.abs man))
+  | _ => float_try_to_fbig P32 bits = COutOfBounds
+  end.
+Proof. exact float_try_to_fbig_f32. Qed.
+Print Assumptions C06_float_try_to_fbig_f32.
+
+Theorem C06_float_try_to_fbig_f64 : forall bits, 0 <= bits ->
+  match decode_spec F64 bits with
+  | DFin man exp => float_try_to_fbig P64 bits = COk (fst (normalize 2 man exp), snd (normalize 2 man exp), blen (Z.abs man))
+  | _ => float_try_to_fbig P64 bits = COutOfBounds
+  end.
+Proof. exact float_try_to_fbig_f64. Qed.
+Print Assumptions C06_float_try_to_fbig_f64.
+
+(** TryFrom<RBig> for the primitive integers (any word size), RBig / Relaxed ::to_int *)
+Theorem C06_rat_try_to_prim : forall w sg TW N D, widths_ok w TW -> 0 < D -> Z.gcd N D = 1 ->
+  rat_try_to_prim w sg TW N D =
+    match rat_to_int_spec false N D with
+    | COk v => to_prim_spec sg TW v
+    | _ => CLossOfPrecision
+    end.
+Proof. exact rat_try_to_prim_correct. Qed.
+Print Assumptions C06_rat_try_to_prim.
+
+Theorem C06_rat_to_int : forall N D, 0 < D ->
+  fst (rat_to_int_asis N D) = fst (rat_trunc_spec N D) /\
+  (let '(n, d) := snd (rat_to_int_asis N D) in let '(n', d') := snd (rat_trunc_spec N D) in n * d' = n' * d /\ 0 < d).
+Proof. exact rat_to_int_asis_correct. Qed.
+Print Assumptions C06_rat_to_int.
+
+(** FBig::to_int (mode of the number) and Repr::to_int (towards zero): the as-is models of C10 meet
+    C06's statement of the to_int family for every base and every sound digit estimate *)
+Theorem C06_fbig_to_int : forall B, 2 <= B -> forall digits_ub, (forall s, dlen B s <= digits_ub s) ->
+  forall m p s e, (e < 0 -> s mod B <> 0) ->
+  to_int_asis B digits_ub false m p s e =
+    Ok (iapprox_of (int_round_spec m (fst (repr_frac B s e)) (snd (repr_frac B s e)))).
+Proof. exact fbig_to_int_correct. Qed.
+Print Assumptions C06_fbig_to_int.
+
+Theorem C06_repr_to_int : forall B, 2 <= B -> forall digits_ub, (forall s, dlen B s <= digits_ub s) ->
+  forall s e, (e < 0 -> s mod B <> 0) ->
+  repr_to_int_asis B digits_ub s e =
+    iapprox_of (int_round_spec MZero (fst (repr_frac B s e)) (snd (repr_frac B s e))).
+Proof. exact repr_to_int_correct. Qed.
+Print Assumptions C06_repr_to_int.
+
+(** FBig<R,2> / Repr<2> ::to_f32 / to_f64 as the code stands, WHOLE range: round to 24 / 53 bits
+    under the mode, then encode rounds to nearest even; flag of the first step unless encode was
+    inexact (then NoOp / overflow flag).  The exact content of the open class
+    fbig_to_float_subnormal. *)
+Theorem C06_fbig2_to_f32_two_step : forall m s e, s <> 0 ->
+  fbig2_to_float P32 m s e = two_step P32 m (fst (normalize 2 s e)) (snd (normalize 2 s e)).
+Proof. exact fbig2_to_f32_two_step. Qed.
+Print Assumptions C06_fbig2_to_f32_two_step.
+
+Theorem C06_fbig2_to_f64_two_step : forall m s e, s <> 0 ->
+  fbig2_to_float P64 m s e = two_step P64 m (fst (normalize 2 s e)) (snd (normalize 2 s e)).
+Proof. exact fbig2_to_f64_two_step. Qed.
+Print Assumptions C06_fbig2_to_f64_two_step.
+
+(** to_f32_fast / to_f64_fast, main branch: the correctly rounded pattern of the approximate
+    quotient (truncated 48/106-bit numerator over truncated 24/53-bit denominator, rounded to
+    nearest even); the distance to the correctly rounded N/D stays compared (open class
+    rat_to_float_fast_two_ulps) *)
+Theorem C06_rat_to_f32_fast_main : forall N D, N <> 0 -> 0 < D ->
+  let '(man, ex) := fast_quotient P32 N D in
+  ex < 128 -> -149 - 25 <= ex ->
+  rat_to_float_fast P32 N D =
+    fst (ieee_rne F32 (fst (frac_of (if N <? 0 then - man else man) ex)) (snd (frac_of (if N <? 0 then - man else man) ex))).
+Proof. exact rat_to_f32_fast_main. Qed.
+Print Assumptions C06_rat_to_f32_fast_main.
+
+Theorem C06_rat_to_f64_fast_main : forall N D, N <> 0 -> 0 < D ->
+  let '(man, ex) := fast_quotient P64 N D in
+  ex < 1024 -> -1074 - 54 <= ex ->
+  rat_to_float_fast P64 N D =
+    fst (ieee_rne F64 (fst (frac_of (if N <? 0 then - man else man) ex)) (snd (frac_of (if N <? 0 then - man else man) ex))).
+Proof. exact rat_to_f64_fast_main. Qed.
+Print Assumptions C06_rat_to_f64_fast_main.
+
+(** tie to the sources, over the numbers regenerated by tools/translate_c06_r3.py *)
+Theorem C06_fast_f32_gen_tie : forall N D,
+  rat_to_float_fast_gen P32 (g rat_fast_f32_gen 0) (g rat_fast_f32_gen 1) (g rat_fast_f32_gen 2)
+    (g rat_fast_f32_gen 3 - g rat_fast_f32_gen 4) N D = rat_to_float_fast P32 N D.
+Proof. exact fast_f32_gen_tie. Qed.
+Print Assumptions C06_fast_f32_gen_tie.
+
+Theorem C06_fast_f64_gen_tie : forall N D,
+  rat_to_float_fast_gen P64 (g rat_fast_f64_gen 0) (g rat_fast_f64_gen 1) (g rat_fast_f64_gen 2)
+    (g rat_fast_f64_gen 3 - g rat_fast_f64_gen 4) N D = rat_to_float_fast P64 N D.
+Proof. exact fast_f64_gen_tie. Qed.
+Print Assumptions C06_fast_f64_gen_tie.
+
+Theorem C06_rat_try_f32_gen : forall N D, 0 < D -> Z.gcd N D = 1 ->
+  conv_ok (rat_try_to_float_gen P32 (g rat_try_f32_gen 0) (g rat_try_f32_gen 1) 24 N D) = exact_to_float F32 N D.
+Proof. exact rat_try_f32_gen_correct. Qed.
+Print Assumptions C06_rat_try_f32_gen.
+
+Theorem C06_rat_try_f64_gen : forall N D, 0 < D -> Z.gcd N D = 1 ->
+  conv_ok (rat_try_to_float_gen P64 (g rat_try_f64_gen 0) (g rat_try_f64_gen 1) 53 N D) = exact_to_float F64 N D.
+Proof. exact rat_try_f64_gen_correct. Qed.
+Print Assumptions C06_rat_try_f64_gen.
+
+Theorem C06_source_literals_tie_r3 :
+  skipn 5 rat_fast_f32_gen = [2; 1; 1] /\ skipn 5 rat_fast_f64_gen = [2; 1; 1] /\
+  fbig_to_f32_ctx_gen = [MB P32 + 1; 2; MB P32 + 1; 2] /\ fbig_to_f64_ctx_gen = [MB P64 + 1; 2; MB P64 + 1; 2] /\
+  int_try_float_gen = [1; 1] /\
+  (forall v, int_try_to_float P32 v =
+     let a := Z.abs v in let mx := (MB P32 + 1) + g int_try_float_gen 0 in
+     if (blen a >? mx) || ((blen a =? mx) && negb (is_pow2 a)) then CLossOfPrecision
+     else COk ((if v <? 0 then 2 ^ (W P32 - 1) else 0) + cast_uint P32 a)).
+Proof. exact conv_params2_tie. Qed.
+Print Assumptions C06_source_literals_tie_r3.
